@@ -32,6 +32,8 @@ class CSVFieldReader:
             dtype=None,
             encoding="UTF-8",
             ndmin=1,
+            deletechars="",
+            replace_space=" ",
         )
 
         if self._is_structured(data):
